@@ -75,7 +75,7 @@ def run(ctx):
     ctx.prove()
 
     length = ctx.n(42, 60)
-    npairs = ctx.n(200, 3000)
+    npairs = ctx.n(160, 3000)
     seeds = [ctx.rng.randrange(10 ** 9) for _ in range(npairs)]
     corpus = corpus_seeds()
     jobs = [(s, length) for s in corpus + seeds]
@@ -245,16 +245,17 @@ def storage_level(ctx):
             # a miss: that request may fail, the next one must answer the file's derivation again
             for fk in ("before", "partial"):
                 run.adv(("drop", sub, c, h))
-                run.fault = dict(where="get", kind=fk)
-                probe_get(run, "u/cal1", "a.ics", lk)
-                run.fault = None
+                run.set_cache_writable(False, fk)
+                r1 = probe_get(run, "u/cal1", "a.ics", lk)
+                run.set_cache_writable(True)
                 r = probe_get(run, "u/cal1", "a.ics", lk)
                 n += 1
                 ctx.count("probe:fault-at-store-%s" % fk)
-                if r != cold and not probe_failed:
+                if (r1 != cold or r != cold) and not probe_failed:
                     probe_failed.append("fault")
-                    ctx.violation("C13 storage probe: after a failed write of the cache entry (ENOSPC, %s) _get answers %r instead of "
-                                  "the file's derivation" % (fk, r if isinstance(r, str) else (r and r[:2])),
+                    ctx.violation("C13 storage probe: the cache entry is missing and can not be written (ENOSPC, %s): _get answers %r, "
+                                  "and once the cache is writable again %r, instead of the file's derivation" % (
+                                      fk, r1 if isinstance(r1, str) else (r1 and r1[:2]), r if isinstance(r, str) else (r and r[:2])),
                                   dict(stat=stat, sub=sub, lock=lk, entry="write fault at _store_item_cache: " + fk,
                                        note="drop the entry, make pickle.dump in cache.py raise ENOSPC during Collection._get, call _get again"))
             # observation (outside the property, recorded in the evidence): entry files nobody writes
@@ -405,13 +406,18 @@ def two_reader_probe(ctx):
     Both answers must equal the answer given with the cache kept."""
     import shutil
     import threading
+    import time
     from vlib import impl, x_c13 as X
     from radicale.storage.multifilesystem import base as base_mod
     X.install()
     X.CUR[0] = None
     X.STOCK[0] = "utf-8"
-    for stat, sub, what in ((0, 0, "propfind"), (1, 1, "get"), (0, 1, "propfind")):
-        srv = impl.Server({"storage": {"use_mtime_and_size_for_item_cache": str(bool(stat)),
+    for stat, sub, what, stype in ((0, 0, "propfind", "multifilesystem"), (1, 1, "get", "multifilesystem"),
+                                  (0, 1, "propfind", "multifilesystem"),
+                                  # in-process locks: the second reader reaches the per-collection cache lock while the
+                                  # first one (held at the rendezvous until the time-out) rebuilds an entry
+                                  (0, 0, "propfind", "multifilesystem_nolock"), (1, 1, "get", "multifilesystem_nolock")):
+        srv = impl.Server({"storage": {"type": stype, "use_mtime_and_size_for_item_cache": str(bool(stat)),
                                        "use_cache_subfolder_for_item": str(bool(sub))},
                            "auth": {"type": "none"}, "rights": {"type": "authenticated"}})
         try:
@@ -443,7 +449,7 @@ def two_reader_probe(ctx):
                     if ".Radicale.cache" in str(path) and not getattr(seen, "done", False):
                         seen.done = True                      # once per thread: the first cache folder it creates
                         try:
-                            barrier.wait(timeout=1.0)
+                            barrier.wait(timeout=1.0 if stype == "multifilesystem" else 0.4)
                             met.append(1)
                         except threading.BrokenBarrierError:
                             pass
@@ -458,16 +464,28 @@ def two_reader_probe(ctx):
             res = {}
             base_mod.os = Os()
             try:
-                ts = [threading.Thread(target=lambda i=i: res.__setitem__(i, read())) for i in (1, 2)]
+                ts = [threading.Thread(target=lambda i=i: res.__setitem__(i, read()), daemon=True) for i in (1, 2)]
                 for t in ts:
                     t.start()
+                deadline = time.monotonic() + 20
                 for t in ts:
-                    t.join()
+                    t.join(max(0.1, deadline - time.monotonic()))
+                hung = [i for i, t in zip((1, 2), ts) if t.is_alive()]
             finally:
                 base_mod.os = os
             ctx.count("probe:two-readers-rebuild-after-cache-removal")
             ctx.count("probe:two-readers-met-before-mkdir", int(len(met) == 2))
-            ctx.case(("two-readers", stat, sub, what), nontrivial=True)
+            ctx.case(("two-readers", stat, sub, what, stype), nontrivial=True)
+            if hung:
+                ctx.violation("C13 two-reader probe (storage type %s): cache folders removed, two concurrent %s of one collection: "
+                              "reader %d got NO answer within 20 s; with the cache kept the request answers %s" % (
+                                  stype, what.upper(), hung[0], kept["status"]),
+                              dict(scenario="rm -r .Radicale.cache; 2 threads %s of /u/cal1/; the first is held while it rebuilds an "
+                                            "entry (inside the per-collection cache lock), the second reaches that lock" % what,
+                                   storage_type=stype, stat=bool(stat), cache_subfolder=bool(sub), hung_readers=hung,
+                                   statuses={i: (res.get(i) or {}).get("status") for i in (1, 2)}, kept_status=kept["status"],
+                                   note="./check C13 re-runs this probe deterministically (checks/C13.py two_reader_probe)"))
+                break
             bad = [i for i in (1, 2) if res.get(i) != kept]
             if bad:
                 ctx.violation("C13 two-reader probe: cache folders removed, two concurrent %s of one collection under the shared lock "
